@@ -27,6 +27,7 @@ import (
 	"github.com/lightningnetwork/lnd/lnwire"
 	"github.com/lightningnetwork/lnd/record"
 	"github.com/lightningnetwork/lnd/routing/route"
+	"github.com/lightningnetwork/lnd/sqldb"
 )
 
 // ---- canonical error enum (must match Payments/Model.v `err` and props/c16.py)
@@ -88,6 +89,11 @@ type vResp struct {
 	P *vProj    `json:"p"`
 	L [][2]any  `json:"l"`
 	M string    `json:"m,omitempty"`
+	// Ab: the call ended in a database serialization / busy / retries-
+	// exceeded error (sqldb.ExecuteSQLTransactionWithRetry rolls such a
+	// transaction back: the operation did not happen).  Only expected under
+	// concurrency (verif_concurrent_test.go).
+	Ab bool `json:"ab,omitempty"`
 }
 
 func vProject(p *MPPayment, idBase uint64) *vProj {
@@ -297,6 +303,17 @@ func vApply(db DB, ci int, nh int, op []any) vResp {
 		var ps []*MPPayment
 		ps, err = db.FetchInFlightPayments(ctx)
 		r := vResp{E: vErrCode(err), L: [][2]any{}}
+		if err != nil && (sqldb.IsSerializationError(err) ||
+			errors.Is(err, sqldb.ErrRetriesExceeded)) {
+
+			r.Ab = true
+		}
+		if err != nil {
+			r.M = err.Error()
+			if len(r.M) > 160 {
+				r.M = r.M[:160]
+			}
+		}
 		type ent struct {
 			h int
 			p *vProj
@@ -320,6 +337,11 @@ func vApply(db DB, ci int, nh int, op []any) vResp {
 		panic("unknown op")
 	}
 	r := vResp{E: vErrCode(err), L: [][2]any{}}
+	if err != nil && (sqldb.IsSerializationError(err) ||
+		errors.Is(err, sqldb.ErrRetriesExceeded)) {
+
+		r.Ab = true
+	}
 	if err != nil && r.E == 1 {
 		m := err.Error()
 		if len(m) > 160 {
